@@ -16,6 +16,11 @@ def run(tier, seed, t0):
         cases += ch.cases(PID, seed, tier, 4 if tier != "thorough" else 20)
     except vlib.BuildError as e:
         c = vlib.Case(7_000_000); c.engine = "LD_PRELOAD interposition"; c.verdict = "inconclusive"; c.sig = "harness/hook-dylib-build-failed"; c.detail = str(e); cases.append(c)
+    if tier == "thorough":
+        try:
+            cases += cl.asan_cases(PID, "c02", seed, 20, binname="loops")
+        except vlib.BuildError as e:
+            c = vlib.Case(3_000_000); c.engine = "asan"; c.verdict = "inconclusive"; c.sig = "harness/asan-build-failed"; c.detail = str(e)[:300]; cases.append(c)
     return vlib.finish(PID, tier, seed, "exploration", cases, rule=RULE, t0=t0, replay_builder=cl.rb_factory("c02", seed),
                        assumptions=["1 s promptness slack against 3 s join timeouts", "the C-ABI wrappers (task_join / JoinHandle::join in the open-coroutine crate) only map this result and are not driven separately"])
 
